@@ -161,6 +161,7 @@ def run(model: RepoModel, rep, tier: str):
                 probs.append("the union is not taken over the predecessor statements")
         (rep.violation if probs else rep.holds)("C06.R2", key, PS, f.node.lineno,
                                                 (f"{fname}: " + "; ".join(probs)) if probs else f"{acc} = set(); for each predecessor: {acc} |= pred.{src}")
+        check_merge_fresh(model, rep, "C06.R2", fname, acc, src)
         # predecessors come from the CFG
         k2 = f"{PS}::{fname}::predecessors from the CFG"
         ok = any(isinstance(n, ast.Call) and (call_name(n) or "").endswith("graph_predecessors") and "cfg" in norm(n) for n in walk_no_nested(f.node))
@@ -281,12 +282,46 @@ def _cfg_handlers(model: RepoModel) -> Dict[str, str]:
     return {op: h.name for op, h in reg.handlers.items()}
 
 
+def check_merge_fresh(model: RepoModel, rep, RID: str, fname: str, acc: str, src: str):
+    """The merged in-set must be a fresh object on every path: the transfer functions kill and generate in place on what the
+    merge hands them (or on what is stored as the in-set), so handing out a predecessor's stored out-set lets one statement rewrite
+    another statement's result (shared by C06.R2 and C09.R2)."""
+    p2 = model.cls(PS, "P2PrelimSemanticAnalysis")
+    f = p2.methods.get(fname)
+    if f is None:
+        raise AnalysisError(f"{fname} vanished")
+    key = f"{PS}::{fname}::the merged set is a fresh object on every path"
+    bad = []
+
+    def stored(e) -> bool:
+        # a set owned by another statement's status (or any attribute ending in the out-set name) handed out without a copy
+        return isinstance(e, ast.Attribute) and e.attr == src or isinstance(e, ast.Subscript) and stored(e.value) \
+            or isinstance(e, ast.IfExp) and (stored(e.body) or stored(e.orelse))
+    for n in walk_no_nested(f.node):
+        if isinstance(n, ast.Return) and n.value is not None and stored(n.value):
+            bad.append((n, f"`{norm(n)}` returns a predecessor's stored {src} itself"))
+        if isinstance(n, ast.Assign) and dotted(n.targets[0]) == acc and stored(n.value):
+            bad.append((n, f"`{norm(n)}` makes the in-set the very object stored as a predecessor's {src}"))
+    if bad:
+        n, what = bad[0]
+        rep.violation(RID, key, PS, n.lineno,
+                      f"{fname}: {what}: the statement's transfer (kill/gen in place) then rewrites the predecessor's out-set, so the "
+                      f"sibling successors of that predecessor (the other arm of a branch, the path round a one-armed `if`) lose the "
+                      f"definitions this statement kills")
+    else:
+        rep.holds(RID, key, PS, f.node.lineno, f"`{acc}` is only ever a new set that predecessors' {src} are merged into")
+
+
 # ---------------------------------------------------------------- self-test mutants
 def _t(old, new, count=1):
     return lambda src: __import__("sa.mutate", fromlist=["x"]).text_replace(src, old, new, count)
 
 
 MUTANTS = [
+    ("state-merge-aliases-single-predecessor", PS,
+     _t("        for each_parent_stmt_id in parent_stmt_ids:\n            if each_parent_stmt_id in frame.stmt_id_to_status:\n                in_state_bits |= frame.stmt_id_to_status[each_parent_stmt_id].out_state_bits",
+        "        if len(parent_stmt_ids) == 1 and parent_stmt_ids[0] in frame.stmt_id_to_status:\n            return frame.stmt_id_to_status[parent_stmt_ids[0]].out_state_bits\n        for each_parent_stmt_id in parent_stmt_ids:\n            if each_parent_stmt_id in frame.stmt_id_to_status:\n                in_state_bits |= frame.stmt_id_to_status[each_parent_stmt_id].out_state_bits"),
+     "collect_in_state_bits::the merged set is a fresh object"),
     ("gen-before-kill", PS, _t("        current_bits = frame.symbol_bit_vector_manager.kill_bit_ids(current_bits, all_def_stmts)\n        current_bits = frame.symbol_bit_vector_manager.gen_bit_ids(current_bits, [bit_id])",
                                "        current_bits = frame.symbol_bit_vector_manager.gen_bit_ids(current_bits, [bit_id])\n        current_bits = frame.symbol_bit_vector_manager.kill_bit_ids(current_bits, all_def_stmts)"),
      "update_current_symbol_bit"),
